@@ -68,8 +68,9 @@ func GenWorld(t *rapid.T, o WorldOpts) World {
 	fileNames := []string{"a.txt", "b.txt", "src/c.go", "src/d/e.go", "doc/readme", "bin"}
 	tree := map[string]string{}
 	var prevStep string
+	stepNames := rapid.SliceOfNDistinct(rapid.SampledFrom([]string{"write-code", "package", "build.v2", "a-fetch", "z_release", "Test"}), nSteps, nSteps, rapid.ID[string]).Draw(t, "stepnames")
 	for si := 0; si < nSteps; si++ {
-		sname := fmt.Sprintf("step%d", si)
+		sname := stepNames[si]
 		sf := stepFiles{materials: copyFiles(tree)}
 		// the step creates 1-2 files and possibly modifies one
 		for _, fn := range rapid.SliceOfNDistinct(rapid.SampledFrom(fileNames), 1, 2, rapid.ID[string]).Draw(t, "touch") {
